@@ -114,25 +114,12 @@ Lemma cids_of_net : forall l, cids_of (map PNet l) = []. Proof. kind_map. Qed.
 Lemma cids_of_mac : forall l, cids_of (map PMac l) = []. Proof. kind_map. Qed.
 Lemma cids_of_cid : forall l, cids_of (map PCid l) = l. Proof. kind_map. Qed.
 
-(** No stored MAC is 8 bytes long (an EUI-64 / the colon form of which is
-    IPv6 text). *)
-Definition no_mac8 (c : client) : Prop := Forall (fun m => length m <> 8%nat) (c_macs c).
-
-Lemma macs_written l : Forall (fun m => length m <> 8%nat) l -> map mac_as_written l = map PMac l.
-Proof.
-  induction 1 as [|m l Hm _ IH]; [reflexivity|]. cbn [map]. rewrite IH. f_equal.
-  unfold mac_as_written. destruct (Nat.eqb (length m) 8) eqn:E; [|reflexivity].
-  apply Nat.eqb_eq in E. contradiction.
-Qed.
-
 Lemma no_bad_written c : existsb is_bad (ids_of c) = false.
 Proof.
   unfold ids_of. rewrite !existsb_app.
   assert (H1 : forall l, existsb is_bad (map PIp l) = false) by (induction l; cbn; auto).
   assert (H2 : forall l, existsb is_bad (map PNet l) = false) by (induction l; cbn; auto).
-  assert (H3 : forall l, existsb is_bad (map mac_as_written l) = false).
-  { induction l as [|m l IH]; cbn; [reflexivity|]. rewrite IH. unfold mac_as_written.
-    destruct (Nat.eqb (length m) 8); reflexivity. }
+  assert (H3 : forall l, existsb is_bad (map PMac l) = false) by (induction l; cbn; auto).
   assert (H4 : forall l, existsb is_bad (map PCid l) = false) by (induction l; cbn; auto).
   rewrite H1, H2, H3, H4. reflexivity.
 Qed.
@@ -142,7 +129,8 @@ Qed.
 (** The loaded record, field by field, in terms of the file object alone.
     In particular [c_own_blocked] is the negation of
     [use_global_blocked_services] WHATEVER the [blocked_services] key looks
-    like, and an absent / null section is the empty own list. *)
+    like, and an absent / null section is the empty own list
+    ([stored_blocked None = default_blocked]). *)
 Definition as_written (g : uid) (o : cobj) (c : client) (x : extra) : Prop :=
   c_name c = o_name o /\
   c_uid c = (if o_uid o =? 0 then g else o_uid o) /\
@@ -153,7 +141,7 @@ Definition as_written (g : uid) (o : cobj) (c : client) (x : extra) : Prop :=
   c_safesearch c = ss_enabled (o_ss o) /\
   x_ss x = o_ss o /\
   c_own_blocked c = negb (o_use_global_blocked o) /\
-  c_blocked c = Some (match o_blocked o with Some b => b | None => default_blocked end) /\
+  c_blocked c = Some (stored_blocked (o_blocked o)) /\
   c_ignore_qlog c = o_ignore_qlog o /\
   c_ignore_stats c = o_ignore_stats o /\
   x_cache_enabled x = o_cache_enabled o /\
@@ -163,13 +151,14 @@ Definition as_written (g : uid) (o : cobj) (c : client) (x : extra) : Prop :=
   c_ips c = sort_by addr_z_compare (ips_of (o_ids o)) /\
   c_subnets c = sort_by subnet_compare (nets_of (o_ids o)) /\
   c_macs c = sort_by cmp_bytes (macs_of (o_ids o)) /\
-  c_cids c = sort_by cmp_bytes (cids_of (o_ids o)).
+  c_cids c = sort_by cmp_bytes (cids_of (o_ids o)) /\
+  x_nil_sched x = nil_sched_of (o_blocked o).
 
 Lemma to_persistent_ok known g o c x :
   to_persistent known g o = COk c x ->
   existsb is_bad (o_ids o) = false /\
   forallb (fun i => existsb (eqb_bytes i) known)
-    (b_ids (match o_blocked o with Some b => b | None => default_blocked end)) = true /\
+    (b_ids (stored_blocked (o_blocked o))) = true /\
   as_written g o c x.
 Proof.
   unfold to_persistent. destruct (existsb is_bad (o_ids o)); [discriminate|].
@@ -187,7 +176,7 @@ Lemma to_persistent_total known g o :
   (exists c x, to_persistent known g o = COk c x) <->
   (existsb is_bad (o_ids o) = false /\
    forallb (fun i => existsb (eqb_bytes i) known)
-     (b_ids (match o_blocked o with Some b => b | None => default_blocked end)) = true).
+     (b_ids (stored_blocked (o_blocked o))) = true).
 Proof.
   split.
   - intros (c & x & H). apply to_persistent_ok in H. tauto.
@@ -208,7 +197,7 @@ Qed.
 Lemma for_config_fields c x :
   let o := for_config c x in
   o_name o = c_name c /\ o_uid o = c_uid c /\ o_tags o = c_tags c /\ o_upstreams o = c_upstreams c /\
-  o_ss o = x_ss x /\ o_blocked o = c_blocked c /\
+  o_ss o = x_ss x /\ o_blocked o = option_map (fun b => written_blocked b (x_nil_sched x)) (c_blocked c) /\
   o_cache_size o = x_cache_size x /\ o_cache_enabled o = x_cache_enabled x /\
   o_use_global_settings o = negb (c_own_settings c) /\ o_filtering o = c_filtering c /\
   o_parental o = c_parental c /\ o_safebrowsing o = c_safebrowsing c /\
@@ -219,10 +208,20 @@ Proof. cbn. repeat split; reflexivity. Qed.
 
 (** A loaded client always has its section written. *)
 Lemma for_config_section known g o c x :
-  to_persistent known g o = COk c x -> exists b, o_blocked (for_config c x) = Some b.
+  to_persistent known g o = COk c x ->
+  exists fb, o_blocked (for_config c x) = Some fb /\ fb_ids fb = b_ids (stored_blocked (o_blocked o)).
 Proof.
   intros H. apply flags_as_written in H. cbn [for_config o_blocked].
-  destruct H as (_ & _ & _ & _ & _ & _ & _ & _ & _ & Hs & _). eauto.
+  destruct H as (_ & _ & _ & _ & _ & _ & _ & _ & _ & Hs & _). rewrite Hs. cbn. eauto.
+Qed.
+
+(** The stored section written and read again is the stored section; a nil
+    schedule stays nil. *)
+Lemma stored_written o :
+  stored_blocked (Some (written_blocked (stored_blocked o) (nil_sched_of o))) = stored_blocked o /\
+  nil_sched_of (Some (written_blocked (stored_blocked o) (nil_sched_of o))) = nil_sched_of o.
+Proof.
+  destruct o as [[ids [[w z]|]]|]; cbn; split; reflexivity.
 Qed.
 
 (** * One object: what forConfig writes for a loaded client loads back to it *)
@@ -233,20 +232,19 @@ Lemma client_eta c :
 Proof. destruct c; reflexivity. Qed.
 
 Lemma object_roundtrip known g g' o c x :
-  to_persistent known g o = COk c x -> c_uid c <> 0 -> no_mac8 c ->
+  to_persistent known g o = COk c x -> c_uid c <> 0 ->
   to_persistent known g' (for_config c x) = COk c x.
 Proof.
-  intros H Hu Hm. apply to_persistent_ok in H. destruct H as (_ & Hk & W).
-  destruct W as (Wn & Wu & Wos & Wf & Wp & Wsb & Wss & Wx & Wob & Wb & Wq & Wst & Wce & Wcs & Wt & Wup & Wi & Ws & Wmc & Wc).
+  intros H Hu. apply to_persistent_ok in H. destruct H as (_ & Hk & W).
+  destruct W as (Wn & Wu & Wos & Wf & Wp & Wsb & Wss & Wx & Wob & Wb & Wq & Wst & Wce & Wcs & Wt & Wup & Wi & Ws & Wmc & Wc & Wns).
   unfold to_persistent.
   change (o_ids (for_config c x)) with (ids_of c). rewrite no_bad_written.
   cbn [for_config o_blocked o_uid o_name o_use_global_settings o_filtering o_ss o_safebrowsing o_parental
        o_use_global_blocked o_ignore_qlog o_ignore_stats o_tags o_upstreams o_cache_enabled o_cache_size].
-  rewrite Wb. rewrite Hk. cbn [negb].
+  rewrite Wb. cbn [option_map]. rewrite Wns.
+  destruct (stored_written (o_blocked o)) as (Sb & Sn). rewrite Sb, Sn. rewrite Hk. cbn [negb].
   destruct (c_uid c =? 0) eqn:E; [apply N.eqb_eq in E; contradiction|].
-  assert (Hids : ids_of c = map PIp (c_ips c) ++ map PNet (c_subnets c) ++ map PMac (c_macs c) ++ map PCid (c_cids c)).
-  { unfold ids_of. rewrite (macs_written _ Hm). reflexivity. }
-  rewrite Hids.
+  unfold ids_of.
   rewrite !ips_of_app, !nets_of_app, !macs_of_app, !cids_of_app.
   rewrite ips_of_ip, ips_of_net, ips_of_mac, ips_of_cid, nets_of_ip, nets_of_net, nets_of_mac, nets_of_cid,
           macs_of_ip, macs_of_net, macs_of_mac, macs_of_cid, cids_of_ip, cids_of_net, cids_of_mac, cids_of_cid.
@@ -258,25 +256,25 @@ Proof.
   rewrite !Bool.negb_involutive.
   rewrite <- Wb.
   assert (Ess : ss_enabled (x_ss x) = c_safesearch c) by (rewrite Wx; symmetry; exact Wss).
-  rewrite Ess. rewrite <- (client_eta c). destruct x; reflexivity.
+  rewrite Ess. rewrite <- (client_eta c). rewrite <- Wns. destruct x; reflexivity.
 Qed.
 
 (** * The whole list: conversion of what was written reproduces the clients *)
 Definition written (pcs : list (client * extra)) : list cobj := map (fun p => for_config (fst p) (snd p)) pcs.
 
-(** [pcs] came out of a conversion, carry uids and no 8-byte MAC. *)
+(** [pcs] came out of a conversion and carry uids. *)
 Definition loadable_back known (pcs : list (client * extra)) : Prop :=
   Forall (fun p => (exists g o, to_persistent known g o = COk (fst p) (snd p)) /\
-                   c_uid (fst p) <> 0 /\ no_mac8 (fst p)) pcs.
+                   c_uid (fst p) <> 0) pcs.
 
 Lemma conv_all_written known g pcs : forall i,
   loadable_back known pcs ->
   conv_all known i (map (fun o => (g, o)) (written pcs)) = inr pcs.
 Proof.
   induction pcs as [|[c x] pcs IH]; intros i H; [reflexivity|].
-  inversion H as [|p l Hp Hl]; subst. destruct Hp as ((g0 & o & Hc) & Hu & Hm). cbn [fst snd] in *.
+  inversion H as [|p l Hp Hl]; subst. destruct Hp as ((g0 & o & Hc) & Hu). cbn [fst snd] in *.
   cbn [written map conv_all fst snd].
-  rewrite (object_roundtrip known g0 g o c x Hc Hu Hm).
+  rewrite (object_roundtrip known g0 g o c x Hc Hu).
   fold (written pcs). rewrite (IH (i + 1) Hl). reflexivity.
 Qed.
 
@@ -302,7 +300,6 @@ Definition same_registry (r1 r2 : registry) : Prop :=
 Definition config_roundtrip_statement : Prop :=
   forall cfg known objs r g,
     load cfg known objs = LOk r ->
-    (forall u c, deref (fst r) u = Some c -> no_mac8 c) ->
     exists r', reload cfg known g r = LOk r' /\ same_registry r r' /\ save r' = save r.
 
 (** Two registries with the same records answer every request alike
@@ -344,7 +341,9 @@ Proof.
   rewrite E. reflexivity.
 Qed.
 
-(** * The defect of the code as it is: an 8-byte MAC does not survive *)
+(** * An 8-byte MAC survives (since /repo 5c9e5b4; before, the colon text was
+    read back as an IPv6 address and the round trip was refuted with this very
+    object) *)
 Definition ex_mac8 : bytes := [2; 0; 94; 16; 0; 0; 0; 1].
 Definition ex_obj : cobj :=
   {| o_name := [101]; o_ids := [PMac ex_mac8]; o_tags := []; o_upstreams := []; o_uid := 7;
@@ -353,15 +352,62 @@ Definition ex_obj : cobj :=
      o_use_global_blocked := false; o_ignore_qlog := false; o_ignore_stats := false |}.
 Definition ex_conf_cfg : config := {| cfg_tags := []; cfg_addr_ok := fun _ => true |}.
 
-Lemma roundtrip_refuted_mac8 :
+Lemma roundtrip_mac8 :
   exists r r',
     load ex_conf_cfg [] [(0, ex_obj)] = LOk r /\ reload ex_conf_cfg [] 0 r = LOk r' /\
     (exists c, deref (fst r) 7 = Some c /\ c_macs c = [ex_mac8] /\ c_ips c = []) /\
-    (exists c', deref (fst r') 7 = Some c' /\ c_macs c' = [] /\
-                c_ips c' = [([0;2;0;0;0;94;0;16;0;0;0;0;0;0;0;1], [])]).
+    (exists c', deref (fst r') 7 = Some c' /\ c_macs c' = [ex_mac8] /\ c_ips c' = []) /\
+    save r' = save r.
 Proof.
   eexists. eexists. split; [vm_compute; reflexivity|]. split; [vm_compute; reflexivity|].
-  split; eexists; (split; [vm_compute; reflexivity|split; reflexivity]).
+  split; [eexists; (split; [vm_compute; reflexivity|split; reflexivity])|].
+  split; [eexists; (split; [vm_compute; reflexivity|split; reflexivity])|]. vm_compute. reflexivity.
+Qed.
+
+(** * OBSERVATION: a section without a schedule makes the client's requests
+    panic; exactly for a chosen client that applies its own blocked services
+    and whose stored schedule is nil, and this survives save and restart. *)
+Lemma query_panics_spec r dhcp id a :
+  query_panics r dhcp id a = true <->
+  exists u c, acf_find (fst r) dhcp id a = Some u /\ deref (fst r) u = Some c /\
+              c_own_blocked c = true /\ x_nil_sched (extra_of r u) = true.
+Proof.
+  unfold query_panics. split.
+  - destruct (acf_find (fst r) dhcp id a) as [u|] eqn:Ea; [|discriminate].
+    destruct (deref (fst r) u) as [c|] eqn:Ed; [|discriminate].
+    intros H. apply andb_true_iff in H. destruct H as (H1 & H2). exists u, c. repeat split; assumption.
+  - intros (u & c & -> & -> & -> & ->). reflexivity.
+Qed.
+
+Lemma nil_sched_as_written known g o c x :
+  to_persistent known g o = COk c x ->
+  (x_nil_sched x = true <-> exists fb, o_blocked o = Some fb /\ fb_sched fb = None).
+Proof.
+  intros H. apply flags_as_written in H.
+  destruct H as (_ & _ & _ & _ & _ & _ & _ & _ & _ & _ & _ & _ & _ & _ & _ & _ & _ & _ & _ & _ & Hn).
+  rewrite Hn. unfold nil_sched_of. destruct (o_blocked o) as [fb|].
+  - destruct (fb_sched fb) eqn:E.
+    + split; [discriminate|]. intros (fb' & E1 & E2). inversion E1; subst. congruence.
+    + split; [eauto|reflexivity].
+  - split; [discriminate|]. intros (fb & E & _). discriminate.
+Qed.
+
+Definition ex_obj_nil : cobj :=
+  {| o_name := [110]; o_ids := [PIp ([10;1;2;3], [])]; o_tags := []; o_upstreams := []; o_uid := 9;
+     o_ss := zero_ss; o_blocked := Some {| fb_ids := []; fb_sched := None |};
+     o_cache_size := 0; o_cache_enabled := false;
+     o_use_global_settings := true; o_filtering := false; o_parental := false; o_safebrowsing := false;
+     o_use_global_blocked := false; o_ignore_qlog := false; o_ignore_stats := false |}.
+
+Lemma example_nil_sched :
+  exists r r',
+    load ex_conf_cfg [] [(0, ex_obj_nil)] = LOk r /\ reload ex_conf_cfg [] 0 r = LOk r' /\
+    query_panics r (fun _ => None) [] ([10;1;2;3], []) = true /\
+    query_panics r' (fun _ => None) [] ([10;1;2;3], []) = true /\
+    query_panics r (fun _ => None) [] ([10;1;2;4], []) = false.
+Proof.
+  eexists. eexists. split; [vm_compute; reflexivity|]. split; [vm_compute; reflexivity|].
+  repeat split; vm_compute; reflexivity.
 Qed.
 
 (** Non-vacuity of the premises: a loaded client (absent section, opt-out
@@ -375,7 +421,7 @@ Definition ex_obj6 : cobj :=
 
 Lemma example_roundtrip :
   exists c x r r',
-    to_persistent [] 5 ex_obj6 = COk c x /\ c_uid c = 5 /\ c_uid c <> 0 /\ no_mac8 c /\
+    to_persistent [] 5 ex_obj6 = COk c x /\ c_uid c = 5 /\ c_uid c <> 0 /\
     c_own_blocked c = true /\ c_blocked c = Some default_blocked /\
     c_ignore_qlog c = false /\ c_ignore_stats c = true /\
     to_persistent [] 0 (for_config c x) = COk c x /\
@@ -384,6 +430,5 @@ Lemma example_roundtrip :
 Proof.
   do 4 eexists. split; [vm_compute; reflexivity|].
   split; [reflexivity|]. split; [discriminate|].
-  split. { repeat constructor; cbn; discriminate. }
   repeat (split; [vm_compute; reflexivity|]). vm_compute; reflexivity.
 Qed.
